@@ -62,6 +62,10 @@ KANI_ALSO = {
     "c04_update_reply_ack_flag": ["C03"],
     # header validity (version 1, no reserved bits, known code, size <= 0x1000) is the acceptance side of the wire format
     "c20_hdr_valid_frontend": ["C01", "C05"], "c20_hdr_valid_backend": ["C01"],
+    # the Verus units stub send_message / send_message_with_payload / send_header with `proved-by:` these harnesses: every property
+    # whose proof goes through a written frame depends on them (fast: a few seconds each)
+    "c08_send_message_frame": ["C01", "C02", "C03", "C04", "C18"], "c08_send_header_frame": ["C01", "C02", "C04"],
+    "c08_send_message_with_payload_frame": ["C01", "C02", "C03", "C04"], "c08_send_message_with_payload_limits": ["C01", "C02", "C03", "C04"],
 }
 
 STANDING_ASSUMPTIONS = [
